@@ -215,6 +215,57 @@ impl Property for C20 {
             prog.files.push(format!("{}/l.map", dir));
             top_path = "/w/top.sv".into();
         }
+        // decoration (own random stream, so the other families keep their values): the search directories are handed
+        // over in an order that is NOT the sorted one, one of them may be listed twice, and headers exist a second time
+        // with other content in another listed directory - every route must take the caller's first hit
+        // (C20-r7a: the file entry sorts and de-duplicates the list "once per run", the string entry does not)
+        let mut dirs_family = false;
+        {
+            let mut drng = Rng::new(run_seed(seed, "C20-dirs", run));
+            if drng.chance(1, 4) {
+                dirs_family = true;
+                let mut paths = prog.include_paths.clone();
+                paths.push(if drng.coin() { "/aa0".to_string() } else { "/zz9".to_string() });
+                if drng.chance(1, 3) {
+                    paths.push("/mm5".to_string());
+                }
+                for i in (1..paths.len()).rev() {
+                    let j = drng.usize_below(i + 1);
+                    paths.swap(i, j);
+                }
+                let mut sorted = paths.clone();
+                sorted.sort();
+                if sorted == paths {
+                    paths.reverse();
+                }
+                let headers: Vec<(String, Vec<u8>)> = prog
+                    .nodes
+                    .iter()
+                    .filter_map(|n| match n {
+                        VNode::File { path, bytes } if !path.starts_with("/w/") => Some((path.clone(), bytes.to_vec())),
+                        _ => None,
+                    })
+                    .collect();
+                for (k, (hp, body)) in headers.iter().enumerate() {
+                    let (hdir, name) = hp.rsplit_once('/').unwrap_or(("", hp.as_str()));
+                    let others: Vec<&String> = paths.iter().filter(|d| d.as_str() != hdir).collect();
+                    if others.is_empty() || drng.chance(1, 4) {
+                        continue;
+                    }
+                    let target = format!("{}/{}", drng.pick(&others), name);
+                    if prog.nodes.iter().any(|n| n.path() == target) {
+                        continue;
+                    }
+                    let text = format!("{}`define SHADOW{} {}\nlocalparam int SHADOW{}_P = {};\n", String::from_utf8_lossy(body), k, k + 100, k, k);
+                    prog.nodes.push(VNode::file(&target, &text));
+                }
+                if drng.chance(1, 3) {
+                    let d = drng.pick(&paths).clone();
+                    paths.push(d);
+                }
+                prog.include_paths = paths;
+            }
+        }
         sc.vfs = prog.nodes.clone();
         if family < 8 && rng.chance(1, 8) {
             // an include chain around the implementation limit: both sides must count levels alike
@@ -255,6 +306,9 @@ impl Property for C20 {
             sc.family = "parse_sv quartet".into();
             vec![Api::ParseSv, Api::ParseSvStr, Api::ParseSvPp, Api::ParseSvPpStr]
         };
+        if dirs_family {
+            sc.family.push_str(" +unsorted-dirs");
+        }
         let mut ops: Vec<Op> = vec![];
         for api in apis {
             let mut c = base(api);
